@@ -291,3 +291,52 @@ func recipientsScenario() *scenario {
 	}
 	return sc
 }
+
+// The cache_keys scenario: the flow cache must be a FUNCTION of the source ("each session produces the same result it
+// produces when run alone" - flows are loaded lazily on first use into a cache shared by all sessions).
+//   - asset 1111 "Copy": a legacy export with a top level uuid (the asset's uuid) whose metadata.uuid is 2222, the uuid of
+//     the ordinary flow "Real": what a session started in 2222 runs must not depend on whether another session loaded 1111;
+//   - flows "Registration" / "registration" (names differing in case only) and "Survey" / "Survey" (equal names): what a
+//     name resolves to (flowAssets.FindByName, contact query `flow = "..."`) must not depend on what is cached.
+//
+// Eight scripts start sessions in the different flows, so that in every round the cold cache is filled in another order.
+func cacheKeysScenario() *scenario {
+	cu := func(n int) string { return fmt.Sprintf("c0900000-0000-4000-b000-%012d", n) }
+	copyUUID, realUUID := cu(1111), cu(2222)
+	simple := func(uuid, name, text string) obj {
+		return obj{"uuid": uuid, "name": name, "spec_version": "13.6.0", "language": "eng", "type": "messaging", "revision": 1,
+			"expire_after_minutes": 0, "localization": obj{},
+			"nodes": []obj{{"uuid": uuid[:24] + "aaaaaaaaaaaa", "actions": []obj{{"uuid": uuid[:24] + "bbbbbbbbbbbb", "type": "send_msg", "text": text}},
+				"exits": []obj{{"uuid": uuid[:24] + "cccccccccccc"}}}}}
+	}
+	legacyCopy := obj{
+		"uuid": copyUUID, "name": "Copy", "version": "11.12", "flow_type": "M", "base_language": "eng",
+		"metadata": obj{"uuid": realUUID, "name": "Copy", "revision": 1},
+		"entry":    cu(5001),
+		"action_sets": []obj{{"uuid": cu(5001), "x": 0, "y": 0, "destination": nil, "exit_uuid": cu(5002),
+			"actions": []obj{{"type": "reply", "uuid": cu(5003), "msg": obj{"eng": "I am the copy"}}}}},
+		"rule_sets": []obj{},
+	}
+	flowsL := []obj{legacyCopy, simple(realUUID, "Real", "I am the real one"),
+		simple(cu(3001), "Registration", "Registration with a capital"), simple(cu(3002), "registration", "registration in lower case"),
+		simple(cu(4001), "Survey", "first Survey"), simple(cu(4002), "Survey", "second Survey")}
+	raw, err := json.MarshalIndent(obj{"flows": flowsL}, "", " ")
+	if err != nil {
+		panic(err)
+	}
+	env := obj{"allowed_languages": []string{"eng"}, "date_format": "YYYY-MM-DD", "time_format": "hh:mm", "timezone": "America/Los_Angeles"}
+	sc := &scenario{Name: "cache_keys", Assets: raw}
+	starts := []struct{ uuid, name string }{{realUUID, "Real"}, {copyUUID, "Copy"}, {cu(3002), "registration"}, {cu(3001), "Registration"},
+		{cu(4002), "Survey"}, {cu(4001), "Survey"}, {realUUID, "Real"}, {copyUUID, "Copy"}}
+	for i, st := range starts {
+		c := obj{"uuid": fmt.Sprintf("c09cac%02d-0000-4000-a000-%012d", i, 8000+i), "id": 8000 + i, "name": fmt.Sprintf("Key %d", i), "language": "eng", "status": "active",
+			"created_on": "2000-01-01T00:00:00.000000000-00:00", "urns": []string{fmt.Sprintf("tel:+1206555%04d", 200+i)}}
+		tb, _ := json.Marshal(obj{"type": "manual", "flow": obj{"uuid": st.uuid, "name": st.name}, "contact": c, "environment": env,
+			"triggered_on": "2000-01-01T00:00:00.000000000-00:00"})
+		sc.Scripts = append(sc.Scripts, script{Name: fmt.Sprintf("start_%d_%s", i, st.name), Trigger: tb})
+	}
+	if err := sc.derive(); err != nil {
+		panic(err)
+	}
+	return sc
+}
